@@ -180,6 +180,12 @@ def worker(spec_path, out_path):
                                                          for k, v in dict(eq.nonorthogonal_options).items()}
                 res["region_nonorthogonal_options"] = {name: {k: (v if isinstance(v, (int, float, str, bool, type(None))) else str(v))
                                                               for k, v in dict(r.nonorthogonal_options).items()} for name, r in eq.regions.items()}
+            if spec.get("extract_rz"):
+                # extractors that need the R-Z positions but not the geometry: their result survives a failing geometry()
+                mesh.calculateRZ()
+                res["rz"] = {}
+                for name in spec["extract_rz"]:
+                    res["rz"][name] = extractors.EXTRACTORS[name](eq, mesh, spec)
             mesh.geometry()
             nc = out_path + ".nc"
             mesh.writeGridfile(nc)
